@@ -75,6 +75,8 @@ def judge(case, obs):
             v.bucket("winner-is-a-worker-thread")
         if j == 16:
             v.bucket("winner-j16-ordinal-%d" % w["thread"])
+        if j == 64:
+            v.bucket("j64-winner-ordinal>16" if w["thread"] > 16 else "j64-winner-ordinal<=16")
         if attempts >= 2:
             v.bucket("match-after>=2-attempts")
         v.bucket("attempts-to-win-%s" % ("1" if attempts == 1 else "2-9" if attempts < 10 else "10-99" if attempts < 100 else "100+"))
@@ -89,6 +91,8 @@ def judge(case, obs):
             v.bucket("prefix-mixed-case")
     v.bucket("odd-digit-count" if len(digits) % 2 else "even-digit-count")
     v.bucket("j%d" % xm["j"])
+    if E and len({r["thread"] for r in E}) > 3:
+        v.bucket("concurrent-threads-requesting-entropy")
     v.bucket("selector-default" if sel is None else "selector-account-index" if sel[0] == "index" else "selector-hd-path")
     if xm["password"]:
         v.bucket("vanity-password")
@@ -137,7 +141,7 @@ def shards(tier, seed):
     T = tier == "thorough"
     return ([{"name": "singles-%d" % i, "part": i, "reps": 8 if T else 2, "exhaustive": "all 16 single digits and the 6 upper-case letters"} for i in range(4)]
             + [{"name": "multi-%d" % i, "count": 80 if T else 8, "three": T} for i in range(8)]
-            + [{"name": "winners-%d" % i, "count": 400 if T else 60} for i in range(4)]
+            + [{"name": "winners-%d" % i, "count": 500 if T else 100, "j": (16, 64)[i % 2]} for i in range(8)]
             + [{"name": "nonhex"}, {"name": "stuck-0", "j": 1, "cap": 40000 if T else 10000}, {"name": "stuck-1", "j": 0, "cap": 40000 if T else 10000},
                {"name": "stuck-2", "j": 16, "cap": 300000 if T else 60000}])
 
@@ -200,7 +204,8 @@ def gen(shard, rng, tier):
         # many short searches at -j 16 with different delay scripts: the winner must vary
         for _ in range(shard["count"]):
             d = rng.choice("0123456789abcdefABCDEF") + rng.choice(["", rng.choice("0123456789abcdef")])
-            yield _case(rng, "0x" + d, 16, delay=_rand_delay(rng, 16) or "1:2000,2:2000,3:2000", cls="winners")
+            j = shard.get("j", 16)
+            yield _case(rng, "0x" + d, j, delay=_rand_delay(rng, j) if rng.random() < 0.6 else None, cls="winners")
     elif name.startswith("stuck-"):
         # all-zero entropy -> "abandon ... about" -> m/44'/60'/0'/0/0 = 0x9858EfFD232B4033E47d90003D41EC34EcaEda94
         for prefix in ("0x0", "0xabc"):
